@@ -247,10 +247,10 @@ pub fn run(run: &mut Run) -> Finish {
         }
     });
     let n1 = s1_count();
-    run.par_slice("S1: sources x roots x contents patterns, three constructions, also through to_data_url", 2, n1 * 3, |idx, l| {
+    run.par_slice("S1: sources x roots x contents patterns, four constructions (the fourth reaches the map through root changes), also through to_data_url", 2, n1 * 4, |idx, l| {
         let k = idx & ((1 << 40) - 1);
-        let m = s1_map(k / 3);
-        let how = (k % 3) as usize;
+        let m = s1_map(k / 4);
+        let how = (k % 4) as usize;
         let (v, ran) = check_regular(&m, how, true);
         for x in v {
             l.violation(idx, x);
@@ -300,6 +300,21 @@ pub fn run(run: &mut Run) -> Finish {
         }
         if ran {
             l.case(true, h64(&(m.file.is_some(), m.debug_id.is_some(), m.ignore.len(), k % 9)));
+        }
+    });
+    let nx = x_count();
+    run.par_slice("X: extreme coordinates (deltas of 2^31 and more in both directions), three constructions", 6, nx * 3, |idx, l| {
+        let k = idx & ((1 << 40) - 1);
+        let m = x_map(k / 3);
+        let (v, ran) = check_regular(&m, (k % 3) as usize, false);
+        for x in v {
+            l.violation(idx, x);
+        }
+        if ran {
+            l.case(true, h64(&("X", m.tokens.iter().map(|t| (t.gc >> 30, t.src.map(|s| (s.1 >> 30, s.2 >> 30)))).collect::<Vec<_>>())));
+        }
+        if l.wants_sample(idx) {
+            l.sample(idx, json!({"slice": "X", "tokens": m.tokens}));
         }
     });
     let docs = doc_pool(tier == Tier::Thorough);
